@@ -39,6 +39,7 @@ FILES = [
     'src/primitives/common/linear_equation.rs',
     'src/primitives/common/line_join.rs',
     'src/primitives/triangle/mod.rs',
+    'src/mono_font/mono_text_style.rs',
     'src/text/mod.rs',
     'src/text/text.rs',
     'src/image/image_raw.rs',
